@@ -54,7 +54,7 @@ FUN = CheckFn("c08-fun", "Model.FloatOps", "float_unop_check", Tup(Nat, F64, F64
 
 ASSUMPTIONS = [
     "both dtypes of the library are exercised at the float level: every float32 and float64 result of the torch primitives / semiring methods (Real add/mul/sub/star/from_int, Viterbi add/mul/sub/star/from_int, Log mul, comparisons, nan_to_num, relu; plain 0-dim/1-dim tensors and PatternedTensors with a default) is compared bit for bit (any NaN = any NaN) with the Flocq model Model/FloatFormat.v evaluated by vm_compute; the exact-carrier judgement, the law instances and the PrimFloat model use float64",
-    "PatternedTensor defaults are Python floats (binary64) also when the physical tensor is float32: the float-format stream uses defaults that are float32 numbers; arithmetic on them in binary64 followed by the conversion in to_dense rounds like the float32 operation (innocuous double rounding, 53 >= 2*24+2), except that a default beyond the float32 range cannot be densified (finding F22)",
+    "PatternedTensor defaults are Python floats (binary64) also when the physical tensor is float32: the float-format stream uses defaults that are float32 numbers; arithmetic on them in binary64 followed by the conversion in to_dense rounds like the float32 operation (innocuous double rounding, 53 >= 2*24+2), and a default beyond the float32 range densifies to +-inf like a tensor element (finding F22, repaired in /repo 013a2f3)",
     "RealSemiring on PatternedTensors is exercised on its carrier [0, +inf] only at the float-format level (outside it the code's nan_to_num default neginf=None gives -float_max on tensor elements but -inf for a binary64 default converted to float32)",
     "from_int is compared for Python ints below 2^53 (torch converts a Python int to float32 through binary64, which rounds twice above 2^53; not part of the property)",
     "LogSemiring is judged in the exp reading: e^x for a log-space float x is supplied as a rational with >= 45 significant digits of e^x and of e^x - 1 (Python decimal), the result r as the interval [e^(r-t), e^(r+t)], t = 8 * 2^-52 * (|x|+|y|+|r|) per operation (star: 8 * 2^-52 * |r|); log-space magnitudes above 745 are exercised only through mul (bit-exact)",
@@ -841,14 +841,13 @@ def run(tier, seed):
                                       dict(kind="law", law=LAWNAME[7], sr="RealSemiring", x=INF, y=0.0, z=0.0,
                                            impl=[float(t) for t in law_eval(SR[0], 7, _t0(INF), _t0(0.0), _t0(0.0))])],
                kernel_reevaluated=ctx.kernel, timings_s=timings,
-               known_finding_predicates={FF.F22_KEY: "a float32 PatternedTensor add/mul/sub whose to_dense raises RuntimeError(... overflow) while the result's default is a finite binary64 number of magnitude above the float32 maximum"},
                repaired_findings={"F1": "362cf81 PatternedTensor.nan_to_num_ passes neginf (was: Log/Viterbi mul/sub on PatternedTensors gave -float_max for -inf)",
                                   "F2": "d2ec7af ViterbiSemiring.star(0) is 0 (was: where(x >= 0, inf, 0.))",
                                   "F21": "ad94aa4 PatternedTensor.exp/expm1/log/log1p treat the default like torch treats an element (was: LogSemiring.sub on PatternedTensors raised whenever exp(y.default - x.default) >= 1)"},
                float_format_cases=getattr(ctx, "flocq_cases", {}),
                open_items=["associativity of float add/mul and distributivity of Real mul over add are FALSE on binary32 and binary64 (C08_float_assoc_distr_refuted_binary32/64); they are laws of the exact carriers only (part A), which is where star induction / least-solution statements live",
                            "RealSemiring.star = 1/(1-x) is modelled and compared bit-exactly for float32/float64, but the float-level statement star x = 1 + x*star x is not claimed (it is false after rounding); only star x = inf for x >= 1 and the exact-carrier law are proved",
-                           "F22 (float32 PatternedTensor with a default beyond the float32 range cannot be densified) is open in /repo; reported as KNOWN-FINDING",
+                           "F22 (float32 PatternedTensor with a default beyond the float32 range could not be densified) is repaired in /repo 013a2f3; its two deliberate cases stay in every run as regression cases",
                            "LogSemiring add/sub/star/sum are judged within a tolerance in the exp reading, not bit-exactly (transcendental functions)",
                            "C08_viterbi_old_code_laws_partial concerns the pre-d2ec7af formula viterbi_star_old only (record of F2); the current code has the full C08_viterbi_code_laws"])
     return cov, viol
